@@ -140,6 +140,16 @@ def o_strip_reuse(inp):
         gkind = meta if kind == "string" else (meta or {}).get(key, (meta or {}).get(key.lower()))
         if gkind != wkind:
             return (("cycle:recorded-kind", f"cycle {cycle}: {v!r}: {meta!r}", repr(wkind)), nontrivial, cls)
+    # two removals in a row (the middleware twice in a stack): each strips one layer of what is there *now* and records
+    # what it found - the second one "no-enclosing" unless the content itself was enclosed once more
+    twice = RemoveEnclosingMiddleware(allow_inplace_modification=True).transform(RemoveEnclosingMiddleware(allow_inplace_modification=True).transform(_lib(v, kind, key)))
+    want2, wkind2 = strip1(want)
+    if _get(twice, kind, key) != want2:
+        return (("twice:strip", f"{v!r} -> {_get(twice, kind, key)!r}", repr(want2)), nontrivial, cls)
+    meta = twice.blocks[0].parser_metadata.get("removed_enclosing")
+    gkind = meta if kind == "string" else (meta or {}).get(key, (meta or {}).get(key.lower()))
+    if gkind != wkind2:
+        return (("twice:recorded-kind", f"{v!r}: {meta!r}", repr(wkind2)), nontrivial, cls)
     return (None, nontrivial, cls)
 
 
